@@ -1,6 +1,9 @@
 package vcext
 
-import "container/list"
+import (
+	"container/list"
+	"container/ring"
+)
 
 // container/list (ASSUMED): a list is summarised by ghost state — its length, the set of its elements,
 // its front element, and the sum of ghost_weight(e.Value) over its elements for a fixed, state-
@@ -40,3 +43,15 @@ func ghost_weight(v any) int64                      { panic("ghost") }
 //@      ghost_lnonfront(l) == old(ghost_lnonfront(l)) && ghost_lfront(l) == old(ghost_lfront(l))
 //@   ensures forall x *list.Element :: { vcIn(ghost_lmem(l), x) } vcIn(ghost_lmem(l), x) == (old(vcIn(ghost_lmem(l), x)) && x != e)
 //@   ensures e != old(ghost_lfront(l)) ==> ghost_lfront(l) == old(ghost_lfront(l))
+
+// container/ring (ASSUMED): a ring element's successor never changes (Link / Unlink are not used);
+// ring.New(n) is nil exactly for n <= 0.
+func ghost_rnext(r *ring.Ring) *ring.Ring { panic("ghost") }
+
+//@ ext (*container/ring.Ring).Next(r *ring.Ring) (n *ring.Ring)
+//@   requires r != nil
+//@   ensures n != nil && n == ghost_rnext(r)
+//@ ext container/ring.New(n int) (r *ring.Ring)
+//@   ensures (n <= 0) == (r == nil)
+//@ ext (*container/ring.Ring).Do(r *ring.Ring, f func(any))
+//@   attr calls-arg=1
